@@ -665,8 +665,56 @@ def layout_cases(tier):
     return cs
 
 
+CFG_COMP = Cfg('slerp_comp', headers=HDR, defines=('GLM_ENABLE_EXPERIMENTAL',), noinline=(r'glm::mix<', r'glm::slerp<', r'glm::exp<', r'glm::log<', r'glm::inverse<'))
+
+
+def composition_cases(tier):
+    """squad and intermediate are compositions of other interpolation primitives; with those primitives kept as opaque calls the kernel must be the documented composition:
+      squad(q1, q2, s1, s2, h)  == mix(mix(q1, q2, h), mix(s1, s2, h), 2 (1 - h) h)         (the oriented-arc mix on both levels)
+      intermediate(p, c, n)     == exp((log(n * inverse(c)) + log(p * inverse(c))) / -4) * c"""
+    cs = []
+    for T in ('float', 'double'):
+        sc = G.scalar(T)
+        qt = G.quat(T)
+        two, one, m4 = '%s(2)' % sc.cpp, '%s(1)' % sc.cpp, '%s(-4)' % sc.cpp
+        pairs = [('squad', [Par(n_, qt) for n_ in 'abcd'] + [Par('s', sc)], '*o = squad(*a, *b, *c, *d, *s);',
+                  '*o = mix(mix(*a, *b, *s), mix(*c, *d, *s), %s * (%s - *s) * *s);' % (two, one), 'mix(mix(q1, q2, h), mix(s1, s2, h), 2 (1 - h) h)'),
+                 ('intermediate', [Par(n_, qt) for n_ in 'abc'], '*o = intermediate(*a, *b, *c);',
+                  '{ %s iq = inverse(*b); *o = exp((log(*c * iq) + log(*a * iq)) / %s) * *b; }' % (qt.cpp, m4), 'exp((log(next * inverse(curr)) + log(prev * inverse(curr))) / -4) * curr')]
+        for fn_, ps, body, ref, text in pairs:
+            k = K('comp_%s_%s' % (fn_, sc.tag), [Par('o', qt, False)] + ps, body, CFG_COMP)
+            kr = K('comp_%s_ref_%s' % (fn_, sc.tag), [Par('o', qt, False)] + ps, ref, CFG_COMP)
+            name = '%s<%s>' % (fn_, sc.tag)
+
+            def judge(ctx, k=k, kr=kr, name=name, text=text, qt=qt):
+                for kk in (k, kr):
+                    err = ctx.compile_error(kk)
+                    if err:
+                        return [R.ob(name, 'existence', R.REFUTED, 'cannot be instantiated: ' + err, kernel=kk.source())]
+                a, b = L.out_lanes(ctx, k, qt), L.out_lanes(ctx, kr, qt)
+                res = []
+                for c in 'xyzw':
+                    oid = '%s.composition[%s]' % (name, c)
+                    if a[c] is b[c]:
+                        res.append(R.ob(oid, 'composition', R.PROVED, 'the kernel is ' + text + ' (primitives kept opaque)', kernel=k.source()))
+                        continue
+                    # different opaque primitives (e.g. slerp where the definition says mix) are different functions: a definite difference; different scalar arguments are compared as polynomials
+                    ca = sorted({x.args[0] for x in tm.walk(a[c]) if x.op == 'call'})
+                    cb = sorted({x.args[0] for x in tm.walk(b[c]) if x.op == 'call'})
+                    if ca != cb:
+                        res.append(R.ob(oid, 'composition', R.REFUTED, 'not ' + text + ': the kernel calls %s where the definition calls %s' % (', '.join(n_[:60] for n_ in ca if n_ not in cb) or '-', ', '.join(n_[:60] for n_ in cb if n_ not in ca) or '-'),
+                                        where=R.where_of(ctx.fn(k), a[c]), kernel=k.source() + '\n' + kr.source()))
+                    else:
+                        d = tm.diff(a[c], b[c])
+                        res.append(R.ob(oid, 'composition', R.UNDECIDED, 'terms differ at %s: %s versus %s' % (d[0], tm.show(d[1], 3), tm.show(d[2], 3)), kernel=k.source() + '\n' + kr.source()))
+                return res
+            cs.append(R.Case(name + '.composition', [k, kr], judge))
+    return cs
+
+
 def cases(tier):
     cs = []
+    cs += composition_cases(tier)
     for T in ('float', 'double'):
         cs.append(interp_case('slerp', T))
         cs.append(interp_case('slerp', T, spin=True))
